@@ -263,8 +263,8 @@ func fieldName(t types.Type, i int) string {
 func (e *Fn) indexSite(in ssa.Instruction, x, idx ssa.Value) Site {
 	i := e.Eval(idx)
 	n := e.Len(x)
-	g1 := i                   // i ≥ 0
-	g2 := n.Sub(i).AddK(-1)   // i < len
+	g1 := i                 // i ≥ 0
+	g2 := n.Sub(i).AddK(-1) // i < len
 	ok1 := e.Prove(in, g1)
 	ok2 := e.Prove(in, g2)
 	s := Site{Instr: in, Kind: "index", Expr: vname(x) + "[" + vname(idx) + "]", Coarse: csketch(x, 0) + "[*]", OK: ok1 && ok2}
